@@ -12,7 +12,7 @@ import json, os, re, shutil, subprocess, sys, tempfile, concurrent.futures as cf
 
 ENV = dict(os.environ, GOFLAGS="-mod=mod", GOPROXY="off", GOSUMDB="off", GOTOOLCHAIN="local")
 ENV.pop("GOWORK", None)
-PROPS = ["C%02d" % i for i in range(1, 20)]
+PROPS = ["C%02d" % i for i in range(1, 21)]
 SEEDED = "/verif/seeded"
 
 
